@@ -89,6 +89,7 @@ class Job:
         r = dict(id=self.id, status=status, obligations=self.obligations, discharged=self.discharged, paths=self.paths,
                  queries=q, solver_s=round(ts, 3), wall_s=round(time.time() - self.t0, 3), cex=self.cex[:5], n_cex=len(self.cex),
                  witness=self.witness, samples=self.samples[:3], notes=self.notes, items=items, contracts=sorted(contracts))
+        r['known'] = list(getattr(self, 'known', {}).values())
         if missing: r['notes'] = self.notes + ['vacuity: witnesses not reached: ' + ', '.join(missing)]
         return r
 
